@@ -601,6 +601,8 @@ Verdict(c) ==
     [] c.op = "map" -> MapCase(c)
     [] c.op = "transpose" -> TransposeCase(c)
     [] c.op = "pickle" -> PickleCase(c)
+    [] c.op = "pickle-dual" -> Chk(c.where \o ":rebound-to-the-recorded-namespace-registration",
+                                   c.bound_to_namespace_registration /\ c.not_the_global_registration /\ c.paths /\ c.unflatten /\ c.repr)
     [] c.op = "dataclass" -> DataclassCase(c)
     [] c.op = "partial" -> PartialCase(c)
     [] c.op = "dataclass-hand" -> DataclassHand(c)
